@@ -349,7 +349,7 @@ def contains_atom(ex, state, c, x):
                     continue
                 res.append(z3.And(g, z3.Contains(o.seq, z3.Unit(t))))
             return disj(res)
-        if o.kind == "dict":
+        if o.kind in ("dict", "udict"):
             from . import models
             return models.dict_has(ex, state, c, x)
     if isinstance(c, VListView):
@@ -539,6 +539,15 @@ def get_item(ex, state, v, k):
         ex.raise_if(state, z3.BoolVal(True), "TypeError")
     if isinstance(v, VRef):
         o = ex.obj(state, v)
+        if o.kind == "ulist":
+            if not isinstance(k, (VInt, VBool)):
+                ex.raise_if(state, z3.BoolVal(True), "TypeError")
+            i = ex.num(k)
+            ex.raise_if(state, z3.Or(i >= o.n, i < -o.n), "IndexError")
+            i = simp(i)
+            if not ((z3.is_int_value(i) and i.as_long() >= 0) or ex.prove_quick(state, i >= 0)):
+                i = simp(z3.If(i >= 0, i, i + o.n))
+            return ex.reg.ulist_get(ex, state, o, i)
         if o.kind == "list":
             if not isinstance(k, (VInt, VBool)):
                 ex.raise_if(state, z3.BoolVal(True), "TypeError")
@@ -559,7 +568,7 @@ def get_item(ex, state, v, k):
             ex.raise_if(state, z3.Or(i >= n, i < -n), "IndexError")
             j = ex.index_term(state, i, n)
             return value_of_elem(o.elem, o.seq[j])
-        if o.kind == "dict":
+        if o.kind in ("dict", "udict"):
             from . import models
             return models.dict_getitem(ex, state, v, k)
         if o.kind == "alist":
